@@ -146,6 +146,8 @@ def run_check(prop, tier, seed, replay=None):
                         hit = True
                     elif cid not in open_ids:
                         run.failures.append((f["witness"], fl))
+            if "witness" not in f and run.known_hits.get(f["id"], 0) > 0:
+                hit = True  # no stored witness: the class was hit by generated inputs of this very run
             if hit:
                 line = "KNOWN-FINDING: property=%s %s [%s]" % (prop.id, f["what_fails"], f["id"])
                 run.known_lines.append(line)
